@@ -1804,3 +1804,155 @@ func ruleMaturityPerTemplate(c *report.Ctx) {
 		c.Fail(sk(f)+":maturity-store", "anchor lost: ParsePkScript no longer assigns both maturities", p.Pos(f.Pos()))
 	}
 }
+
+// ruleAPIOwnerOfStaking (C16): the API's view of a staking output names the owner in standard (witness-v0) form.
+func ruleAPIOwnerOfStaking(c *report.Ctx) {
+	p := c.P
+	c.Rule("api-owner-standard-form", "api.extractAddressInfos reports as recipient of a staking output the witness-v0 address rebuilt from the script hash (what ParsePkScript().StdEncodeAddress() and the address index use), not the staking-form address the consensus extractor returns", 2)
+	f := fn(c, pkgAPI, "", "extractAddressInfos")
+	stakingTy := p.Obj(pkgTxscript, "StakingScriptHashTy")
+	if f == nil || stakingTy == nil {
+		return
+	}
+	// values flowing into result #1 (recipient)
+	type src struct {
+		v  ssa.Value
+		at *ssa.BasicBlock
+	}
+	var srcs []src
+	var walk func(v ssa.Value, at *ssa.BasicBlock, seen map[ssa.Value]bool)
+	walk = func(v ssa.Value, at *ssa.BasicBlock, seen map[ssa.Value]bool) {
+		if seen[v] {
+			return
+		}
+		seen[v] = true
+		if ph, ok := v.(*ssa.Phi); ok {
+			for i, e := range ph.Edges {
+				walk(e, ph.Block().Preds[i], seen)
+			}
+			return
+		}
+		srcs = append(srcs, src{v, at})
+	}
+	for _, b := range f.Blocks {
+		if r, ok := b.Instrs[len(b.Instrs)-1].(*ssa.Return); ok && len(r.Results) > 1 {
+			walk(an.RetOperand(r, 1), b, map[ssa.Value]bool{})
+		}
+	}
+	n := 0
+	for _, s := range srcs {
+		if k, isK := s.v.(*ssa.Const); isK && k.Value != nil && k.Value.ExactString() == `""` {
+			continue
+		}
+		n++
+		key := siteKey(f, "recipient-source", n)
+		d := p.Desc(s.v)
+		if strings.Contains(d, "NewAddressWitnessScriptHash") {
+			c.OK(key, "rebuilt in witness-v0 form", p.Pos(s.v.Pos()))
+			continue
+		}
+		// any other source must be computed on a path that excludes the staking class
+		at := s.at
+		if in, isIn := s.v.(ssa.Instruction); isIn && in.Block() != nil {
+			at = in.Block()
+		}
+		excl := an.AnyAtom(p.Guards(at), func(a an.Atom) bool {
+			ex, isEx := a.X.(*ssa.Extract)
+			if !isEx || ex.Index != 0 || !strings.Contains(p.Desc(a.X), "ExtractPkScriptAddrs") {
+				return false
+			}
+			if _, isK := a.Y.(*ssa.Const); !isK {
+				return false
+			}
+			if a.Op == token.NEQ && p.Desc(a.Y) == constString(stakingTy) {
+				return true
+			}
+			return a.Op == token.EQL && p.Desc(a.Y) != constString(stakingTy)
+		})
+		if excl {
+			c.OK(key, "consensus address used for a non-staking class", p.Pos(s.v.Pos()))
+		} else {
+			c.Fail(key, "the recipient reported for an output can be "+d+" on a path that includes the staking class: for a staking output the consensus extractor returns the staking-form address, so the API names another owner address than the wallet (ParsePkScript/StdEncodeAddress) does for the same output", p.Pos(s.v.Pos()), an.AtomTexts(p.Guards(at))...)
+		}
+	}
+	if n < 2 {
+		c.Fail(sk(f)+":recipient-source", "anchor lost: extractAddressInfos no longer assigns a recipient", p.Pos(f.Pos()))
+	}
+}
+
+// ruleAddressRowKeyForm (C12): the writers and the rollback of an address row pick the address encoding the same way.
+func ruleAddressRowKeyForm(c *report.Ctx) {
+	p := c.P
+	c.Rule("address-row-key-form", "every address-row key built from an output script uses the staking-form address for staking outputs and the standard form otherwise — in AddCredits (which writes the first-use height) and in Rollback (which clears it) alike", 3)
+	ar := p.Type(pkgTxmgr, "addressRecord")
+	if ar == nil {
+		c.Lost("txmgr.addressRecord")
+		return
+	}
+	for _, f := range p.ModFuncs {
+		pk := an.FuncPkg(f)
+		if pk == nil || pk.Path() != pkgTxmgr {
+			continue
+		}
+		n := 0
+		for _, st := range fieldStores(f, ar, "encodeAddress") {
+			v := st.(*ssa.Store).Val
+			if _, isPar := v.(*ssa.Parameter); isPar {
+				continue // PutNewAddress: the caller's address string
+			}
+			n++
+			key := siteKey(f, "encodeAddress-store", n)
+			method := ""
+			if call, ok := v.(*ssa.Call); ok {
+				if call.Call.IsInvoke() {
+					method = call.Call.Method.Name()
+				} else if cal := call.Call.StaticCallee(); cal != nil {
+					method = cal.Name()
+				}
+			}
+			gs := p.GuardsOf(st)
+			staking := an.AnyAtom(gs, func(a an.Atom) bool { return an.BoolCall(a, nil, "IsStaking", true) })
+			notStaking := an.AnyAtom(gs, func(a an.Atom) bool { return an.BoolCall(a, nil, "IsStaking", false) })
+			switch {
+			case method == "SecondEncodeAddress" && staking:
+				c.OK(key, "staking form under IsStaking()", posOf(c, st))
+			case method == "StdEncodeAddress" && notStaking:
+				c.OK(key, "standard form under !IsStaking()", posOf(c, st))
+			default:
+				c.Fail(key, sk(f)+" builds an address-row key from "+p.Desc(v)+" without the staking / standard selection the other sites use: for a staking output the key differs from the row AddCredits wrote, so the row's first-use height is not cleared when its only payment is reorganised away (the address stays 'used')", posOf(c, st), an.AtomTexts(gs)...)
+			}
+		}
+	}
+}
+
+// rulePersistedIndexClamped (C12): the restore persists max(discovered next index, requested child number).
+func rulePersistedIndexClamped(c *report.Ctx) {
+	p := c.P
+	c.Rule("persisted-index-clamped", "createManagerKeyScope persists, per branch, the larger of the discovered next index and the child number the restore was asked to cover: every address it lists lies below the persisted index, so the next issued address is new", 2)
+	f := fn(c, pkgKeystore, "", "createManagerKeyScope")
+	ucn := fn(c, pkgKeystore, "", "updateChildNum")
+	if f == nil || ucn == nil {
+		return
+	}
+	for i, s := range calls(f, ucn) {
+		cc := an.CallOf(s)
+		key := siteKey(f, "updateChildNum", i+1)
+		want := "ExternalChildNum"
+		if k, ok := cc.Args[1].(*ssa.Const); ok && k.Value != nil && k.Value.ExactString() == "true" {
+			want = "InternalChildNum"
+		}
+		ok := false
+		if ph, isPhi := cc.Args[2].(*ssa.Phi); isPhi {
+			for _, e := range ph.Edges {
+				if strings.HasSuffix(p.Desc(e), "hdPath."+want) {
+					ok = true
+				}
+			}
+		}
+		if ok {
+			c.OK(key, "max(nextIndex, hdpath."+want+")", posOf(c, s))
+		} else {
+			c.Fail(key, "the child number persisted for this branch is "+p.Desc(cc.Args[2])+", not clamped up to hdpath."+want+": after a restore that was asked to cover more addresses than have history, the stored next index lies below addresses the wallet already lists, and the next NewAddress hands out an address that was issued before", posOf(c, s))
+		}
+	}
+}
